@@ -253,6 +253,7 @@ def stepC10 (d : DSt) (op : String) (got : String) : StepResult DSt :=
       let cfg : TxCfg := { mtu := mtu, fragEnabled := bool01 frag, ifiEnabled := bool01 ifi,
                            congMarking := bool01 cm, threshold := thr }
       { st := { active := true, cfg := cfg, cfgB := cfg, reasm := bool01 reasm, tx := { nextSeq := seq },
+                txB := { nextSeq := (seq + 9223372036854775808) % two64 },
                 nThreads := max 1 (min nth 8) },
         expected := some "ok",
         cov := [s!"threads-{max 1 (min nth 8)}", s!"scope-send-{sscope}", s!"scope-recv-{rscope}"] ++ [if bool01 frag then "cfg-frag" else "cfg-nofrag"] ++ (if bool01 ifi then ["cfg-ifi"] else []) ++
